@@ -12,15 +12,59 @@ Inductive SR (A : Type) := SOk (a : A) (rest : list N) | SErr | SFuel.
 Arguments SOk {A}. Arguments SErr {A}. Arguments SFuel {A}.
 
 Definition is_quant_char (c : N) : bool := (c =? g_star) || (c =? g_plus) || (c =? g_question).
-(* Quantifier(opt): (matched?, rest) *)
-Definition sp_quant (l : list N) : bool * list N :=
+(* the optional lazy suffix *)
+Definition skip_lazy (r : list N) : list N :=
+  match r with q :: r' => if q =? g_question then r' else r | [] => r end.
+
+(* the leading run of decimal digits, and what follows it *)
+Fixpoint span_digits (l : list N) : list N * list N :=
+  match l with
+  | c :: r => if decimal_digit c then let '(ds, r') := span_digits r in (c :: ds, r') else ([], l)
+  | [] => ([], [])
+  end.
+Definition dec_step (a d : N) : N := 10 * a + (d - 48).
+Definition dec_value (ds : list N) : N := fold_left dec_step ds 0.
+Definition is_nil {A} (l : list A) : bool := match l with [] => true | _ => false end.
+(* `{n}` `{n,}` `{n,m}` at the head of l: (n, upper bound if any, rest) *)
+Definition sp_braced (l : list N) : option (N * option N * list N) :=
   match l with
   | c :: r =>
-      if is_quant_char c then
-        (true, match r with q :: r' => if q =? g_question then r' else r | [] => r end)
-      else (false, l)
-  | [] => (false, l)
+      if c =? g_lbrace then
+        let '(ds, r1) := span_digits r in
+        if is_nil ds then None else
+        match r1 with
+        | c1 :: r2 =>
+            if c1 =? g_rbrace then Some (dec_value ds, Some (dec_value ds), r2)
+            else if c1 =? g_comma then
+              let '(es, r3) := span_digits r2 in
+              match r3 with
+              | c3 :: r4 =>
+                  if c3 =? g_rbrace then Some (dec_value ds, if is_nil es then None else Some (dec_value es), r4)
+                  else None
+              | [] => None
+              end
+            else None
+        | [] => None
+        end
+      else None
+  | [] => None
   end.
+Definition bounds_ok (n : N) (om : option N) : bool := match om with Some m => n <=? m | None => true end.
+(* Quantifier(opt) as consume_quantifier(no_error) reads it: with no_error nothing is an error; otherwise bounds out of
+   order are, and with u so is a `{` that does not start a quantifier *)
+Definition sp_quant (u no_error : bool) (l : list N) : SR bool :=
+  match l with
+  | c :: r =>
+      if is_quant_char c then SOk true (skip_lazy r)
+      else if c =? g_lbrace then
+        match sp_braced l with
+        | Some (n, om, r') => if negb no_error && negb (bounds_ok n om) then SErr else SOk true (skip_lazy r')
+        | None => if negb no_error && u then SErr else SOk false l
+        end
+      else SOk false l
+  | [] => SOk false l
+  end.
+Definition starts_with (c : N) (l : list N) : bool := match l with x :: _ => x =? c | [] => false end.
 
 Definition is_eq_or_bang (c : N) : bool := (c =? g_equals) || (c =? g_bang).
 (* is the assertion that starts here a QuantifiableAssertion of Annex B (a look-ahead, without u)? *)
@@ -103,14 +147,25 @@ Definition sp_atom (l : list N) : SR bool :=
             else sp_group_body r
         | [] => sp_group_body r
         end
+      else if u then SOk false l
+      else if c =? g_lbrace then
+        (* Annex B: InvalidBracedQuantifier (an early error) before ExtendedPatternCharacter *)
+        match sp_braced l with Some _ => SErr | None => SOk true r end
+      else if (c =? g_rbrace) || (c =? g_rbracket) then SOk true r
       else SOk false l
+  end.
+Definition sp_quantified (r : list N) : SR bool :=
+  match sp_quant u false r with
+  | SOk _ r' => SOk true r'
+  | SErr => SErr
+  | SFuel => SFuel
   end.
 Definition sp_term (l : list N) : SR bool :=
   match sp_assertion l with
-  | SOk true r => if quantifiable u l then SOk true (snd (sp_quant r)) else SOk true r
+  | SOk true r => if quantifiable u l then sp_quantified r else SOk true r
   | SOk false _ =>
       match sp_atom l with
-      | SOk true r => SOk true (snd (sp_quant r))
+      | SOk true r => sp_quantified r
       | SOk false r => SOk false r
       | SErr => SErr
       | SFuel => SFuel
@@ -149,7 +204,13 @@ Definition sp_disjunction_body (l : list N) : SR unit :=
   match sp_alternative (S (length l)) l with
   | SOk _ l1 =>
       match sp_bars (S (length l1)) l1 with
-      | SOk _ l2 => if fst (sp_quant l2) then SErr else SOk tt l2
+      | SOk _ l2 =>
+          match sp_quant u true l2 with
+          | SOk true _ => SErr                                      (* nothing to repeat *)
+          | SOk false _ => if starts_with g_lbrace l2 then SErr else SOk tt l2   (* lone quantifier bracket *)
+          | SErr => SErr
+          | SFuel => SFuel
+          end
       | SErr => SErr
       | SFuel => SFuel
       end
@@ -175,17 +236,23 @@ Definition recognises (u : bool) (l : list N) : bool := match sp_pattern u l wit
    A left-to-right scan of the units:
      a backslash must be followed by a unit other than a decimal digit and c k x u p P (back-references, control
          letters, named references, hex/unicode/property escapes are outside the fragment); the escaped unit is skipped;
-     every other unit is a pattern character or one of  . | ( ) ? * + ^ $  (a bare bracket or brace is outside);
-     `(?<` is followed by `=` or `!` (a look-behind, not a named group).
-   chars_ok (all that the grammar side needs): without u no unit is a closing bracket or a brace at all (Annex B would
-   admit a bare one as ExtendedPatternCharacter; the fragment has them only with u, escaped). *)
-Definition plain_char (c : N) : bool :=
-  negb (syntax_character c)
-  || existsb (N.eqb c) [g_dot; g_bar; g_lparen; g_rparen; g_question; g_star; g_plus; g_caret; g_dollar].
+     every other unit is any unit but an opening bracket `[` (classes are outside the fragment);
+     `(?<` is followed by `=` or `!` (a look-behind, not a named group);
+     where `{` starts a syntactically complete `{n}` `{n,}` `{n,m}`, the bounds are below 2^63 (the implementation
+         accumulates them in saturating 64-bit arithmetic, the grammar compares the unbounded values). *)
+Definition plain_char (c : N) : bool := negb (c =? g_lbracket).
 Definition is_dec_digit (c : N) : bool := (48 <=? c) && (c <=? 57).
 Definition allowed_after_backslash (x : N) : bool :=
   negb (is_dec_digit x) && negb (existsb (N.eqb x) [99; 107; 120; 117; 112; 80]).
+Definition bound_limit : N := 9223372036854775808.
+Definition braces_small (l : list N) : bool :=
+  match sp_braced l with
+  | Some (n, om, _) => (n <? bound_limit) && match om with Some m => m <? bound_limit | None => true end
+  | None => true
+  end.
 Definition local_ok (c : N) (r : list N) : bool :=
+  if c =? g_lbrace then braces_small (c :: r)
+  else
   match r with
   | c1 :: c2 :: r' =>
       if (c =? g_lparen) && (c1 =? g_question) && (c2 =? g_less) then
@@ -202,6 +269,4 @@ Fixpoint scan (esc : bool) (l : list N) : bool :=
       else if c =? g_backslash then scan true r
       else plain_char c && local_ok c r && scan false r
   end.
-Definition no_brace (c : N) : bool := negb ((c =? g_rbracket) || (c =? g_lbrace) || (c =? g_rbrace)).
-Definition chars_ok (u : bool) (l : list N) : bool := u || forallb no_brace l.
-Definition in_fragment (u : bool) (l : list N) : bool := scan false l && chars_ok u l.
+Definition in_fragment (u : bool) (l : list N) : bool := scan false l.
